@@ -22,13 +22,16 @@ LAMS = {'uni0': [0.], 'uni90': [90.], 'cross_sym': [0., 90., 90., 0.], 'iso': No
         # plies of unequal thickness (symmetric about the mid-surface, so B = 0 and D16 = D26 = 0 still hold)
         'cross_uneq': [0., 90., 0.], 'cross_uneq2': [90., 0., 0., 90.],
         # two materials on plies of the same angle (symmetric: still specially orthotropic)
-        'hybrid': [0., 0., 90., 90., 0., 0.]}
+        'hybrid': [0., 0., 90., 90., 0., 0.],
+        # very thin single plies: D is eight to ten orders of magnitude below A in SI units
+        'uni0_thin': [0.], 'uni90_thin': [90.]}
 MGLASS = (38.6e9, 8.27e9, 0.26, 4.14e9, 4.14e9, 3.0e9)
 HYBRID_MATS = lambda: [MGLASS, pan.M6, pan.M6, pan.M6, pan.M6, MGLASS]
-PLYTS = {'cross_uneq': [0.3e-3, 0.8e-3, 0.3e-3], 'cross_uneq2': [0.2e-3, 0.5e-3, 0.5e-3, 0.2e-3]}
+PLYTS = {'cross_uneq': [0.3e-3, 0.8e-3, 0.3e-3], 'cross_uneq2': [0.2e-3, 0.5e-3, 0.5e-3, 0.2e-3], 'uni0_thin': [0.125e-3], 'uni90_thin': [0.125e-3]}
 TOP = [(4, 4), (16, 4), (4, 16), (15, 15), (16, 15), (15, 16), (16, 16)]
 ASPECTS = [0.2, 0.5, 1.0, 1.7, 5.0]
 NEIG = 5
+PKG_MISMATCH = []
 
 
 def cases(tier, seed):
@@ -127,16 +130,36 @@ def solve(case, m, n, panel=None):
         # (K - lambda G) v = 0  ->  G v = (1/lambda) K v
         mu = eigh(Ga, Ka, eigvals_only=True)
         lam = 1.0 / mu[mu > 1e-14 * mu.max()]
-        return np.sort(lam)[:NEIG], (a, b, stack, mat, plyt)
+        out = np.sort(lam)[:NEIG]
+        if case['fbase'] == 'SSSS' and case.get('pkg', True):
+            # the same values through the package's own solver (dense path: deterministic)
+            from compmech.analysis import lb
+            from scipy.sparse import csr_matrix
+            vals = np.real(np.asarray(lb(csr_matrix(K), csr_matrix(-G), silent=True, sparse_solver=False, num_eigvalues=NEIG)[0]))
+            vals = np.sort(vals[np.isfinite(vals) & (vals > 0)])[:NEIG]
+            k = min(len(vals), len(out))
+            if k < min(NEIG, len(out)) or np.abs(vals[:k] - out[:k]).max() > 1e-7 * np.abs(out[:k]).max():
+                PKG_MISMATCH.append(dict(what='lb', orders=[m, n], package=vals[:k], direct=out[:k]))
+        return out, (a, b, stack, mat, plyt)
     M = pan.dense(p.calc_kM(silent=True))
     act = np.abs(M).sum(axis=0) != 0
     w2 = eigh(K[np.ix_(act, act)], M[np.ix_(act, act)], eigvals_only=True)
-    return np.sort(w2)[:NEIG], (a, b, stack, mat, plyt)
+    out = np.sort(w2)[:NEIG]
+    if case['fbase'] == 'SSSS' and case.get('pkg', True):
+        from compmech.analysis import freq
+        from scipy.sparse import csr_matrix
+        vals = np.real(np.asarray(freq(csr_matrix(K), csr_matrix(M), silent=True, sparse_solver=False, num_eigvalues=NEIG)[0])) ** 2
+        vals = np.sort(vals)[:NEIG]
+        k = min(len(vals), len(out))
+        if k < min(NEIG, len(out)) or np.abs(vals[:k] - out[:k]).max() > 1e-7 * np.abs(out[:k]).max():
+            PKG_MISMATCH.append(dict(what='freq', orders=[m, n], package=vals[:k], direct=out[:k]))
+    return out, (a, b, stack, mat, plyt)
 
 
 def check_case(case):
     M = case['M']
     fails = []
+    del PKG_MISMATCH[:]
     vals = {}
     geo = None
     lo = 6 if case['fbase'] == 'CCCC' else 4        # clamped edges need index >= 4 functions to have any active amplitude
@@ -195,6 +218,9 @@ def check_case(case):
         if gap > limit:
             fails.append(fail('lowest eigenvalue at the largest series order has not converged to the closed form', sig=None, case=case,
                               gap=gap, limit=limit, ritz=float(vM[0]), closed_form=float(ex[0])))
+    if PKG_MISMATCH:
+        fails.append(fail('lowest eigenvalues returned by the package solver (compmech.analysis.%s, dense path) differ from those of its matrices' % PKG_MISMATCH[0]['what'],
+                          sig=None, case=case, n_orders=len(PKG_MISMATCH), **{k: v for k, v in PKG_MISMATCH[0].items() if k != 'what'}))
     return dict(fails=fails[:4], execs=execs, states=execs, transitions=edges, nontrivial=1, gap=gap, worst_rise=worst)
 
 
